@@ -189,8 +189,8 @@ def check(ctx):
     params = [a.arg for a in fn.args.args]
     ctx.need(len(params) >= 4, "interchange(self, i, j, left) signature changed: %s" % params)
     self_, i_, j_, flag = params[:4]
-    check_result_class(ctx, m, fn, self_)
-    check_refusal_ctor(ctx, m)
+    ctx.attempt(check_result_class, ctx, m, fn, self_)
+    ctx.attempt(check_refusal_ctor, ctx, m)
     if_node, chain, orelse = find_chain(fn)
     ctx.need(chain is not None, "no if/elif chain building Layer(...) values in interchange")
     idx = fn.body.index(if_node)
